@@ -18,6 +18,10 @@ mod c02;
 mod c03;
 mod c04;
 mod c10;
+#[cfg(feature = "hidden-floor")]
+mod c16;
+#[cfg(not(feature = "hidden-floor"))]
+#[path = "c16_stub.rs"]
 mod c16;
 mod c17;
 mod c18;
